@@ -287,3 +287,21 @@ func (it *Iterator) Next()        { it.i++ }
 func (it *Iterator) Key() *Slice  { return &Slice{data: it.keys[it.i]} }
 func (it *Iterator) Value() *Slice { return &Slice{data: it.vals[it.i]} }
 func (it *Iterator) Close()       {}
+
+// CopyDisk duplicates the simulated disk `from` under the name `to` (fault plan and trace are not copied).
+func CopyDisk(from, to string) {
+	src := getDisk(from)
+	src.mu.Lock()
+	cfs := map[string]map[string][]byte{}
+	for cf, m := range src.cfs {
+		mm := make(map[string][]byte, len(m))
+		for k, v := range m {
+			mm[k] = append([]byte(nil), v...)
+		}
+		cfs[cf] = mm
+	}
+	src.mu.Unlock()
+	disksMu.Lock()
+	disks[to] = &disk{cfs: cfs, writesLeft: -1}
+	disksMu.Unlock()
+}
